@@ -37,12 +37,14 @@ RoundTrip(e) ==
          /\ (Unambiguous(w, r, q.pty) /\ Expressible(w, r, v, q.pty)) =>
                /\ Got(q.pty, q.r, Project(w, r, v, q.pty))
                /\ Got(q.pty, q.rem, Project(w, r, v, q.pty)) /\ q.rem.rest = 0
+               /\ Got(q.pty, q.owned, Project(w, r, v, q.pty))              \* the route through owned items agrees
    /\ \A k \in 1..Len(e.perts) :
          LET q == e.perts[k] IN
          /\ q.mode \in PertModes /\ AllWhite(q.ws)
          /\ Expressible(w, r, v, e.pty0) =>
                /\ q.text = Perturbed(w, v, e.text.ok, q.mode, q.ws)       \* the perturbed text is one the property covers
                /\ Got(e.pty0, q.r, Project(w, r, v, e.pty0))
+               /\ Got(e.pty0, q.owned, Project(w, r, v, e.pty0))
 Explains(e) ==
   /\ NoPanic(e)
   /\ e.op = "rt" /\ RoundTrip(e)
